@@ -443,7 +443,7 @@ def _classify_add(t, m):
     return "trivial" if add == 0 else "add-same-width"
 
 
-ASSUME = ["little-endian host (endianIsLittle() true); widths 1..8 (the __uint128_t Big entry points are out of scope)",
+ASSUME = ["little-endian host (endianIsLittle() true); widths 1..8 here; the __uint128_t Big entry points (widths 1..16) are the extbig part",
           "quick macros instantiated with a uint64_t value / uint64_t result",
           "widths outside the C switch (0, >8) are undefined behaviour / assert and are not exercised",
           "the minimum int32_t/int64_t is not passed to varintPrepareSigned_ (its negation is undefined behaviour)"]
